@@ -1,6 +1,9 @@
 package ch
 
-import "context"
+import (
+	"context"
+	"sync"
+)
 
 type (
 	ctxQueryKey  struct{}
@@ -12,16 +15,25 @@ type (
 		Rows            int
 		Bytes           int
 	}
+	// queryMetricsState is shared by the goroutines of a single Do call.
+	queryMetricsState struct {
+		mux sync.Mutex
+		queryMetrics
+	}
 )
 
 func (c *Client) metricsInc(ctx context.Context, delta queryMetrics) {
 	if !c.otel {
 		return
 	}
-	v, ok := ctx.Value(ctxQueryKey{}).(*queryMetrics)
+	v, ok := ctx.Value(ctxQueryKey{}).(*queryMetricsState)
 	if !ok {
 		return
 	}
+	// Blocks are counted by the sending goroutine while the receiving one
+	// accounts progress and result blocks.
+	v.mux.Lock()
+	defer v.mux.Unlock()
 
 	v.Bytes += delta.Bytes
 	v.Rows += delta.Rows
